@@ -71,7 +71,9 @@ PROPS = {
         ],
     },
     "C01": {
-        "extract_keys": [''],
+        "extract_keys": ["FuzzyHashBucketMapper", "b_mapping", "SUBST_TABLE", "INITIAL_STATE", "WINDOW_SIZE", "bucket pairings",
+                         "checksum update", "register shift", "option flags", "qratio", "select_nth", "ENCODED_VALUE_SIZE",
+                         "TOP_VALUE", "length MAX", "length thresholds", "checksum sizes", "variants", "kernel"],
         "modules": [T + "C01"],
         "theorems": [(T + "C01.tables", T + "C01"),
                      (T + "C01.params_eq", T + "C01"),
@@ -211,6 +213,11 @@ PROPS = {
     },
     "C06": {
         "extract_keys": ['size formulas', 'checksum sizes', 'quartile accessor', 'variants', 'hash prefix', 'HEX_', 'LEN_IN_STR'],
+        # `store` lines: only a successful store with a wrong size / content concerns C06 (short buffers are C14's);
+        # lines of the strict build: only a strictly valid hash that fails to round-trip (what else the strict
+        # parser rejects or accepts is C15's business)
+        "spec_mm_filter_ops": {"store": "both-ok"},
+        "spec_mm_filter_cfg": {"strict": "expected-ok"},
         "modules": [T + "C06", T + "C04"],
         "theorems": [(T + "C06.tryFrom_bytes", T + "C06"),
                      (T + "C06.tryFrom_store", T + "C06"),
@@ -325,8 +332,8 @@ PROPS = {
                         "evaluates every law directly on the compiled code for each generated pair (ORACLE lines)"],
     },
     "C13": {
-        "extract_keys": ['HEX_', 'decode_digit', 'hash prefix', 'LEN_IN_STR', 'compare_with_config', 'dist_', 'ring moduli', 'distance scaling'],
-        "model_mm_filter": "result-kinds",   # hash / distance VALUES are C01's / C02's business (DESIGN §14)
+        "extract_keys": ['HEX_', 'decode_digit', 'hash prefix', 'LEN_IN_STR'],
+        "model_mm_filter": "ignore",   # relative property: judged by the direct oracles / relation on the real code   # hash / distance VALUES are C01's / C02's business (DESIGN §14)
         "modules": [T + "C13"],
         "theorems": [(T + "C13.compare_with_match", T + "C13"),
                      (T + "C13.compare_with_spec", T + "C13"),
@@ -348,14 +355,14 @@ PROPS = {
                         "&str arguments: only valid UTF-8 strings are generated"],
     },
     "C12": {
-        "model_mm_filter": "result-kinds",   # hash / distance VALUES are C01's / C02's business (DESIGN §14)
-        "modules": [T + "C12", T + "C01"],
+        "model_mm_filter": "ignore",   # relative property: judged by the direct oracles / relation on the real code   # hash / distance VALUES are C01's / C02's business (DESIGN §14)
+        "modules": [T + "C12"],
         "theorems": [(T + "C12.stream_eq_spec", T + "C12"),
                      (T + "C12.hard_error_wins", T + "C12"),
                      (T + "C12.stream_eq_spec_partial", T + "C12"),
                      (T + "C12.interrupted_counterexample", T + "C12"),
                      (T + "C12.source_retries_interrupted", T + "C12"),
-                     (T + "C01.tables", T + "C01")],
+                     ],
         "extract_keys": ["BUFFER_SIZE", "hash_stream_common"],
         # C12 is relative to hash_buf of the delivered bytes: the probe's direct oracle states exactly that;
         # a value that differs from the reference is another property's business
@@ -376,7 +383,7 @@ PROPS = {
         ],
     },
     "C15": {
-        "model_mm_filter": "result-kinds",   # hash / distance VALUES are C01's / C02's business (DESIGN §14)
+        "model_mm_filter": "ignore",   # relative property: judged by the direct oracles / relation on the real code   # hash / distance VALUES are C01's / C02's business (DESIGN §14)
         "modules": [T + "C15"],
         "theorems": [(T + "C15.strict_eq_lenient_then_checks_text", T + "C15"),
                      (T + "C15.strict_eq_lenient_then_checks_bytes", T + "C15"),
@@ -410,7 +417,7 @@ PROPS = {
                         "strict-parser (+ serde)"],
     },
     "C16": {
-        "model_mm_filter": "result-kinds",   # hash / distance VALUES are C01's / C02's business (DESIGN §14)
+        "model_mm_filter": "ignore",   # relative property: judged by the direct oracles / relation on the real code   # hash / distance VALUES are C01's / C02's business (DESIGN §14)
         "modules": [T + "C16"],
         "theorems": [(T + "C16.ser_spec", T + "C16"),
                      (T + "C16.de_ser", T + "C16"),
@@ -419,8 +426,8 @@ PROPS = {
                      (T + "C16.de_total_partial", T + "C16"),
                      (T + "C16.unwrap_counterexample", T + "C16"),
                      (T + "C16.source_does_not_unwrap", T + "C16"),
-                     (T + "C04.tables", T + "C04")],
-        "modules_extra": [T + "C04"],
+                     ],
+        
         "extract_keys": ["serde visitors"],
         # C16 is relative to this build's parsers and formatters: the probe's direct oracles state exactly that;
         # a value that differs from the reference is another property's business
@@ -450,6 +457,7 @@ PROPS = {
             ("Miri: `mini` stream, no optional features + `unsafe` (table-free code paths)",
              "python3 tools/miri_run.py bare 'easy fast-tlsh/unsafe'", VERIF_DIR),
         ],
+        "build_failure_is_obligation": True,
         "modules": [T + "C17"],
         "theorems": [(T + "C17.invariant_sites", T + "C17"),
                      (T + "C17.invariant_tail_size", T + "C17"),
@@ -496,6 +504,7 @@ PROPS = {
         ],
     },
     "C18": {
+        "build_failure_is_obligation": True,
         "modules": [T + "C18"],
         "theorems": [(T + "C18.core_closure_closed", T + "C18"),
                      (T + "C18.core_closure_has_roots", T + "C18"),
@@ -533,6 +542,7 @@ PROPS = {
     },
     "C07": {
         "crash_concrete": True,   # a configuration whose probe process dies disagrees with the others
+        "build_failure_is_obligation": True,
         "modules": [T + "C07"],
         "theorems": [(T + "C07.generate_any_cfg_eq_spec", T + "C07"),
                      (T + "C07.generate_cfg_irrelevant", T + "C07"),
